@@ -226,6 +226,8 @@ pub fn run_enum(e: &WireEngine, ctx: &Ctx) {
                 FK::UnknownField,
                 FK::TypeConfusion,
                 FK::WrongDocument,
+                FK::UnionMismatch,
+                FK::UnionReorder,
                 FK::Oversize,
                 FK::ByteFlip,
             ]
@@ -243,6 +245,8 @@ pub fn run_enum(e: &WireEngine, ctx: &Ctx) {
                 FK::UnknownField,
                 FK::TypeConfusion,
                 FK::WrongDocument,
+                FK::UnionMismatch,
+                FK::UnionReorder,
                 FK::ByteFlip,
             ]
         };
